@@ -28,9 +28,12 @@ def cases(tier, seed):
         if i % 4 == 1:  # hamlet counties: groups whose predicted turnout is a fraction of a vote
             o = dict(el_tiny_county=True, estimator="bootstrap" if i % 8 == 1 else None, must_aggregates=["county_fips"],
                      feed_frac_reporting=0.5, feed_p_partial=0.2)
+        if i % 12 == 9 and i % 8 not in (0, 1):  # integer grouping columns (nonparametric / gaussian only)
+            o = dict(int_key=True, district=True, feed_n_unexpected=0, must_aggregates=["district"],
+                     estimator=["nonparametric", "gaussian"][(i // 12) % 2])
         if i % 12 == 6:  # dtype variety: the grouping column is a categorical with levels no unit has
             o = dict(cat_key=True, fixed_effects={}, district=bool(i % 24 == 6))
-        out.append(dict(seed=seed, i=i, o=o, polls=(3 if i % 5 == 3 else 0)))
+        out.append(dict(seed=seed, i=i, o=o, polls=(3 if i % 5 == 3 else 0), shared_feed=bool(i % 10 == 3)))
     return out
 
 
